@@ -193,6 +193,17 @@ Theorem stored_readcap_never_upgrades :
 Proof. exact stored_readcap_never_upgrades_ok. Qed.
 Print Assumptions stored_readcap_never_upgrades.
 
+(* A child linked with metadata {"no-write": true} (Adder / MetadataSetter call
+   DirectoryNode._create_readonly_node, modelled by create_readonly_node) carries no write cap --
+   every known cap, and every UnknownNode whose read cap carries an allegation (which
+   unknown_node_rules guarantees), in particular an unknown-format (write cap, read cap) pair. *)
+Theorem no_write_link_has_no_write_cap :
+  forall m,
+  (forall n r, m = MUnknown (UOk n) -> un_ro n = Some r -> (1 <= strength r)%nat) ->
+  made_write_uri (create_readonly_node m) = None.
+Proof. exact no_write_link_has_no_write_cap_ok. Qed.
+Print Assumptions no_write_link_has_no_write_cap.
+
 Theorem dirnode_pins :
   dirnode_code_pins = expected_dirnode_code_pins.
 Proof. exact dirnode_pins_ok. Qed.
@@ -281,4 +292,11 @@ Example ex_directory_nonvacuous :
      = Some (MUnknown (UOk {| un_error := ENone; un_rw := None; un_ro := Some (bytes_of_string "ro.x-some-future-cap:ab") |}))
   /\ strip_prefix_for_ro (bytes_of_string "imm.x-some-future-cap:ab") false = bytes_of_string "imm.x-some-future-cap:ab"
   /\ strip_prefix_for_ro (bytes_of_string "imm.x-some-future-cap:ab") true = bytes_of_string "x-some-future-cap:ab".
+Proof. vm_compute. repeat split. Qed.
+
+Example ex_no_write_nonvacuous :
+  let pair := MUnknown (UOk {| un_error := ENone; un_rw := Some (bytes_of_string "x-future-rw:1"); un_ro := Some (bytes_of_string "ro.x-some-future-cap:ab") |}) in
+  made_write_uri pair = Some (bytes_of_string "x-future-rw:1")
+  /\ create_readonly_node pair = MUnknown (UOk {| un_error := ENone; un_rw := None; un_ro := Some (bytes_of_string "ro.x-some-future-cap:ab") |})
+  /\ create_readonly_node (MNode (CDir (SSK ex_wk ex_fp))) = MNode (CDir (SSKRO (unhex "6d4c7ed53a22b395219d29a61e1898ee") ex_fp)).
 Proof. vm_compute. repeat split. Qed.
